@@ -295,7 +295,7 @@ def coq_make(targets, timeout=3000):
     return rc == 0, out
 
 
-COQ_FILE_LIMIT = 300
+COQ_FILE_LIMIT = 480
 
 
 def coq_first_error(logtxt):
